@@ -38,8 +38,12 @@ def gen_consistent(rng, sid, max_len, nseg):
             segs.append((0, n))
         rng.shuffle(segs)
     lines = ['new %d' % isn]
+    # the segment that carries the stream's last byte may carry FIN (whatever arrives after it must still be reassembled: the
+    # peer retransmits, the network reorders), any segment may carry PSH / URG / ECE
+    finish = rng.random() < 0.5
     for a, ln in segs:
-        lines.append('seg %d %s' % ((isn + a) % M32, hexs(data[pre + a: pre + a + ln])))
+        fl = (1 if (finish and ln > 0 and a + ln == n) else 0) | (rng.choice([0, 0, 8, 0x20, 0x40]))
+        lines.append('seg %d %s' % ((isn + a) % M32, hexs(data[pre + a: pre + a + ln])) + (' %d' % fl if fl else ''))
     meta = {'isn': isn, 'pre': pre, 'data': data, 'segs': segs, 'kind': 'consistent'}
     return (sid, lines), meta
 
